@@ -876,3 +876,44 @@ def c06(ck):
     ck.assumptions += ["only supplied values are constrained; defaults for unsupplied fields are not",
                        "an empty scriptlet interpreter list counts as not supplied"]
     ck.finish()
+
+
+# ------------------------------------------------------------------------------------ C11
+TRACE_MODULE["C11"] = "Trace_C11"
+
+
+@prop("C11")
+def c11(ck):
+    binary = vlib.build_harness()
+    thorough = ck.tier == "thorough"
+    ck.add_tlc(vlib.mc("MC_Determinism", "MC_Determinism_ordered.cfg", ck.scratch, workers=1))
+    r = vlib.tlc("MC_Determinism", "MC_Determinism_hashset.cfg", ck.scratch, workers=1, timeout=300)
+    if r["ok"] or "DetAction is violated" not in r["out"]:
+        raise ToolError("MC_Determinism_hashset: the specification does not reject hash-set iteration order")
+    ck.extra["design_counterexample"] = "emitting recommends in hash-set iteration order violates DetAction (as expected)"
+    tr = ck.scratch / "c11.ndjson"
+    vlib.run_harness(binary, ["c11", "--out", tr, "--seed", ck.seed, "--n", 150 if thorough else 24], timeout=3000)
+    events = read_ndjson(tr)
+    by_id = {e["id"]: e for e in events}
+    nid = max(by_id) + 1
+    runs = [e for e in events if e["event"] == "Run"]
+    if not runs:
+        raise ToolError("C11: no runs recorded")
+    c1 = copy.deepcopy(runs[-1]); c1["bytes_sha256"] = "0" * 64; c1["id"] = nid
+    c2 = copy.deepcopy(runs[-1]); c2["times"] = c2["times"] + [[24415, 0]]; c2["id"] = nid + 1   # 1 600 061 440 > source date
+    events += [c1, c2]
+    write_ndjson(tr, events)
+    v = vlib.validate_trace("Trace_C11", "Trace_C11.cfg", ck.scratch, tr, shards=1)
+    ck.add_validation(v, traces=len({e["cfg"] for e in runs}))
+    rej = ck.expect_canary(v["rejects"], [nid, nid + 1])
+    add_rejects(ck, rej, by_id, lambda e, r: f"{e.get('cfg')}:{r.get('why')}:{e.get('signed', '')}" if e else "?")
+    ck.evaluations = len(runs)
+    ck.nontrivial = len({e["cfg"] for e in runs})
+    ck.extra.update(runs_per_configuration=6, processes="3 in-process + 3 child processes (different TZ, cwd, environment size)",
+                    signed_configs=len({e["cfg"] for e in runs if e["signed"]}),
+                    timestamps_checked=sum(len(e["times"]) for e in runs))
+    ck.samples += runs[:2]
+    ck.rule = ("seeded configurations with 2..6 distinct non-root users and groups, file mtimes on both sides of the source "
+               "date, unsigned / Ed25519 / RSA-4096 signed, each built 3x in-process and in 3 freshly spawned processes; "
+               "non-trivial = distinct configurations")
+    ck.finish()
